@@ -1,7 +1,7 @@
 from reghelp import *
 
 CHECK = dict(
-        runs=runs3('h_rangelock', (16, 8, 16), (96, 48, 160), timeout=(240, 900)),
+        runs=runs3('h_rangelock', (16, 8, 16), (64, 32, 96), timeout=(240, 900)),
         par=8,
         level='exploration',
         rule='one evaluation = one seeded execution (fresh process): photon threads on 1-4 vCPUs lock / try_lock_wait / try_lock_wait2 / '
@@ -12,10 +12,10 @@ CHECK = dict(
              'wake-ups, refused/growing adjusts, saturating and zero-length acquisitions)',
         floors=dict(quick=dict(evaluations=30, events=50000, distinct=10,
                                cov={'C_RANGELOCK_WAITED': 20000, 'waited_then_acquired': 1000, 'adjust_refused': 500, 'adjust_grow_ok': 1000,
-                                    'saturating_range_acquired': 1000, 'superset_unlock': 500, 'zero_length_acquired': 100, 'whole_space_locks': 20}),
-                    thorough=dict(evaluations=250, events=1000000, distinct=60,
-                                  cov={'C_RANGELOCK_WAITED': 400000, 'waited_then_acquired': 20000, 'adjust_refused': 10000, 'adjust_grow_ok': 20000,
-                                       'saturating_range_acquired': 20000, 'superset_unlock': 10000, 'zero_length_acquired': 2000, 'whole_space_locks': 200})),
+                                    'saturating_range_acquired': 1000, 'superset_unlock': 500, 'zero_length_acquired': 100, 'whole_space_locks': 20, 'adjacent_to_held_range_acquired': 40}),
+                    thorough=dict(evaluations=160, events=1000000, distinct=60,
+                                  cov={'C_RANGELOCK_WAITED': 1000000, 'waited_then_acquired': 50000, 'adjust_refused': 30000, 'adjust_grow_ok': 80000,
+                                       'saturating_range_acquired': 60000, 'superset_unlock': 20000, 'zero_length_acquired': 20000, 'whole_space_locks': 150, 'adjacent_to_held_range_acquired': 300})),
         assumptions=['x86-TSO hardware; weaker orderings only through TSan', 'stall points exist only in the scheduler wake-up paths (no hook inside range-lock.h besides the coverage counter)',
                      'unlock(offset,length) is taken to release exactly the held ranges contained in [offset,offset+length), as the code filters with contains()'],
         technique='runtime monitoring: exact interval occupancy map (relaxed atomics per grid cell, marked after acquire / cleared before release, '
